@@ -165,6 +165,37 @@ def _inline_new_temps(fn: ast.FunctionDef, want: List[str]) -> None:
                 break
 
 
+def _drop_dead_constants(fn: ast.FunctionDef, want: List[str]) -> None:
+    """`x = <constant>` for a new local x that is never read: no effect."""
+    loads = {n.id for n in ast.walk(fn) if isinstance(n, ast.Name) and isinstance(n.ctx, ast.Load)}
+    for parent_node in ast.walk(fn):
+        for fld in ("body", "orelse", "finalbody"):
+            lst = getattr(parent_node, fld, None)
+            if not isinstance(lst, list):
+                continue
+            keep = []
+            for st in lst:
+                if isinstance(st, ast.Assign) and len(st.targets) == 1 and isinstance(st.targets[0], ast.Name) and isinstance(st.value, ast.Constant) \
+                        and st.targets[0].id not in loads and st.targets[0].id not in want:
+                    continue
+                keep.append(st)
+            if len(keep) != len(lst) and keep:
+                lst[:] = keep
+
+
+def _orient_boolops(fn: ast.FunctionDef, ref_bool: Dict[str, List[str]]) -> None:
+    for n in ast.walk(fn):
+        if isinstance(n, ast.BoolOp) and len(n.values) >= 2:
+            dumps = [ast.dump(v) for v in n.values]
+            key = type(n.op).__name__ + "|" + "|".join(sorted(dumps))
+            want = ref_bool.get(key)
+            if want and want != dumps and sorted(want) == sorted(dumps):
+                by = {}
+                for d, v in zip(dumps, n.values):
+                    by.setdefault(d, []).append(v)
+                n.values = [by[d].pop(0) for d in want]
+
+
 def _orient_compares(fn: ast.FunctionDef, ref_cmp: List[str]) -> None:
     refset = set(ref_cmp)
     for n in ast.walk(fn):
@@ -187,6 +218,7 @@ def normalise_locals(relpath: str, tree: ast.Module) -> int:
                 key = f"{relpath}::{prefix}{st.name}"
                 want = ref.get(key)
                 if want is not None:
+                    _drop_dead_constants(st, want)
                     for _round in range(3):
                         have = binding_order(st)
                         if have == want:
@@ -213,6 +245,9 @@ def normalise_locals(relpath: str, tree: ast.Module) -> int:
                 rc = ref.get(key + "::==")
                 if rc:
                     _orient_compares(st, rc)
+                rb = ref.get(key + "::bool")
+                if rb:
+                    _orient_boolops(st, rb)
             elif isinstance(st, (ast.With, ast.Try, ast.If)):
                 visit(st.body, prefix)
     visit(tree.body, "")
@@ -250,6 +285,13 @@ def build_reference(root: str) -> Dict[str, List[str]]:
                                        if isinstance(n, ast.Compare) and len(n.ops) == 1 and isinstance(n.ops[0], (ast.Eq, ast.NotEq))})
                         if cmps:
                             out[f"{rel}::{prefix}{st.name}::=="] = cmps
+                        bools = {}
+                        for n in ast.walk(st):
+                            if isinstance(n, ast.BoolOp) and len(n.values) >= 2:
+                                dumps = [ast.dump(v) for v in n.values]
+                                bools[type(n.op).__name__ + "|" + "|".join(sorted(dumps))] = dumps
+                        if bools:
+                            out[f"{rel}::{prefix}{st.name}::bool"] = bools
                     elif isinstance(st, (ast.With, ast.Try, ast.If)):
                         visit(st.body, prefix)
             visit(t.body, "")
